@@ -44,3 +44,46 @@ V('c20-twin-hash-selffield', 'C20', 'C20.CONGRUENCE', DNS,
   "self._hash = hash((self.key, type_, self.class_, text))", "self._hash = hash((self.key, self.type, self.class_, self.text))", expect='silent')
 V('c20-twin-mask-literal', 'C20', 'C20.CONGRUENCE', DNS,
   "self.class_ = class_ & _CLASS_MASK", "self.class_ = 0x7FFF & class_", expect='silent')
+
+CORE = '_core.py'
+# ---------------------------------------------------------------- C17
+V('c17-second-sendto', 'C17', 'C17.GATE', '_handlers/multicast_outgoing_queue.py',
+  "            zc.async_send(construct_outgoing_multicast_answers(answers))",
+  "            out = construct_outgoing_multicast_answers(answers)\n            for packet in out.packets():\n                for t in zc.engine.senders:\n                    t.transport.sendto(packet, ('224.0.0.251', 5353))",
+  names=['async_ready'])
+V('c17-gate-after-loop', 'C17', 'C17.GATE', CORE,
+  "        if self.done:\n            return\n\n        # If no transport is specified, we send to all the ones",
+  "        # If no transport is specified, we send to all the ones", names=['async_send_with_transport'])
+V('c17-done-cleared-in-start', 'C17', 'C17.GATE', CORE,
+  "        self.loop = get_running_loop()\n        if self.loop:",
+  "        self.loop = get_running_loop()\n        self.done = False\n        if self.loop:", names=['Zeroconf.start'])
+V('c17-close-skips-_close', 'C17', 'C17.GATE', CORE,
+  "            else:\n                self.unregister_all_services()\n        self._close()\n        self.engine.close()",
+  "            else:\n                self.unregister_all_services()\n                self._close()\n        self.engine.close()", names=['Zeroconf.close'])
+V('c17-gate-before-goodbye', 'C17', 'C17.GOODBYE', CORE,
+  "        assert self.loop is not None\n        if self.loop.is_running():\n            if self.loop == get_running_loop():",
+  "        assert self.loop is not None\n        self._close()\n        if self.loop.is_running():\n            if self.loop == get_running_loop():", names=['Zeroconf.close'])
+V('c17-async-close-order', 'C17', 'C17.GOODBYE', 'asyncio.py',
+  "        await self.async_remove_all_service_listeners()\n        await self.async_unregister_all_services()\n        await self.zeroconf._async_close()  # pylint: disable=protected-access",
+  "        await self.async_remove_all_service_listeners()\n        await self.zeroconf._async_close()  # pylint: disable=protected-access\n        await self.async_unregister_all_services()", names=['async_close'])
+V('c17-cleanup-timer-not-cancelled', 'C17', 'C17.TIMERS', '_engine.py',
+  "        assert self._cleanup_timer is not None\n        self._cleanup_timer.cancel()\n", "", names=['_async_cache_cleanup'])
+V('c17-scheduler-gate-and-cancel-dropped', 'C17', 'C17.TIMERS', '_services/browser.py',
+  "        if self._next_run is not None:\n            self._next_run.cancel()\n            self._next_run = None\n",
+  "        self._next_run = None\n", names=['_next_run'])
+V('c17-lookup-no-finally', 'C17', 'C17.LISTENER', '_services/info.py',
+  "        finally:\n            zc.async_remove_listener(self)\n\n        return True",
+  "        except asyncio.CancelledError:\n            raise\n        zc.async_remove_listener(self)\n        return True", names=['async_request'])
+V('c17-cancel-keeps-listener', 'C17', 'C17.LISTENER', '_services/browser.py',
+  "        self.query_scheduler.stop()\n        self.zc.async_remove_listener(self)\n",
+  "        self.query_scheduler.stop()\n        if not self.zc.done:\n            self.zc.async_remove_listener(self)\n", names=['_async_cancel'])
+V('c17-close-not-idempotent', 'C17', 'C17.GOODBYE', CORE,
+  "        if self.done:\n            return\n        self.remove_all_service_listeners()",
+  "        self.remove_all_service_listeners()", names=['_close'])
+# twins
+V('c17-twin-gate-nested', 'C17', 'C17.GATE', CORE,
+  "        if self.done:\n            return\n\n        # If no transport is specified, we send to all the ones\n        # with the same address family\n        transports = [transport] if transport else self.engine.senders\n        log_debug = log.isEnabledFor(logging.DEBUG)\n",
+  "        if self.done is True:\n            return None\n        transports = [transport] if transport else self.engine.senders\n        log_debug = log.isEnabledFor(logging.DEBUG)\n", expect='silent')
+V('c17-twin-stop-reordered', 'C17', 'C17.LISTENER', '_services/browser.py',
+  "        if self._next_run is not None:\n            self._next_run.cancel()\n            self._next_run = None\n        self._next_scheduled_for_alias.clear()\n        self._query_heap.clear()",
+  "        self._query_heap.clear()\n        self._next_scheduled_for_alias.clear()\n        timer = self._next_run\n        if timer is not None:\n            self._next_run.cancel()\n            self._next_run = None", expect='silent')
